@@ -112,9 +112,10 @@ int main(int argc, char** argv) {
             try {
                 PolarGrid h(dir + "/r.txt", dir + "/t.txt");
                 if (h.nr() != g.nr() || h.ntheta() != g.ntheta()) { ok = false; why = "sizes differ"; }
-                double bound = 0.5000001 * std::pow(10.0, -prec) + 1e-16;
-                for (int i = 0; ok && i < g.nr(); i++) if (std::fabs(h.radius(i) - g.radius(i)) > bound) { ok = false; why = "radius " + std::to_string(i); }
-                for (int j = 0; ok && j <= g.ntheta(); j++) if (std::fabs(h.theta(j) - g.theta(j)) > bound) { ok = false; why = "angle " + std::to_string(j); }
+                // half a unit of the last written digit, plus the rounding of the decimal -> binary conversion of a number of that size
+                auto bound = [&](double v) { return 0.5000001 * std::pow(10.0, -prec) + 2.0 * 2.220446049250313e-16 * std::max(1.0, std::fabs(v)); };
+                for (int i = 0; ok && i < g.nr(); i++) if (std::fabs(h.radius(i) - g.radius(i)) > bound(g.radius(i))) { ok = false; why = "radius " + std::to_string(i); }
+                for (int j = 0; ok && j <= g.ntheta(); j++) if (std::fabs(h.theta(j) - g.theta(j)) > bound(g.theta(j))) { ok = false; why = "angle " + std::to_string(j); }
             } catch (const std::exception& e) {
                 // the loader's own validity tolerance (equals(): 1e3 eps relative) is finer than 10^-precision below 13 digits:
                 // such a file is a malformed grid for checkParameters and its clean rejection is the documented outcome
